@@ -19,7 +19,7 @@ CHECKS = [
       "The grammar is my transcription of doc/checks_list.md, the state diagram and the shipped test files; sampled, not exhaustive."),
     C("C02", "fault_enumeration", CLI + " under an enumerated fault catalogue",
       "63 catalogue entries (one or more per documented rule) applied at first/middle/last applicable position of a random link of fresh conforming streams; in every mode where the rule is active a message of the rule's code family must exist at the offending offset (statistics file and stderr) and the exit status must be the configured -E value; purely stateful faults must leave check sanity silent.",
-      "Existence oracle (cascades ignored); RDH0 faults not placed on the first RDH of the input; positions sampled per run (3 per entry quick, 36 thorough); 63 entries incl. explicit boundary values (trigger bits 15/26, detector-field bits 12/23, bc 0xdec, stave 48) and one entry per place where a packet can start."),
+      "Existence oracle (cascades ignored); RDH0 faults not placed on the first RDH of the input; positions sampled per run (3 per entry quick, 180 thorough); 63 entries incl. explicit boundary values (trigger bits 15/26, detector-field bits 12/23, bc 0xdec, stave 48) and one entry per place where a packet can start."),
     C("C03", "exploration", CLI + " + in-process driver of the real InputScanner",
       "G-frame streams with arbitrary header values: rows of view rdh / data view, rdh_stats, writer output and in-process (rdh, payload, offset) triples compared with an independent chain walk, over file/stdin x payload loaded/skipped x all filter kinds, counts around the 100-packet batch.",
       "Well-framed, recognised input with known system ids; sampled inputs."),
@@ -45,7 +45,7 @@ CHECKS = [
       "Random bytes, structure-aware and byte-level mutants of generated streams and of the 18 shipped files, plus directed inputs for every panic site known to be reachable from input, through 9 modes x options x {file, pipe}: any terminating signal, panic text, exit status outside {0,1,N}, sanitizer report, logical no-progress state or CPU time beyond a bound proportional to the input size is a violation. Thorough: 150k executions of the exact shipped profile, 30k under ASan, 400 under memcheck, the unsafe sites under Miri.",
       "Sampled inputs; hang decided by /proc (threads asleep, no CPU progress), wall clock only triggers the inspection."),
     C("C05", "exploration", CLI + " under seeded schedule perturbation (hook H1), arrival orders measured with hook H2",
-      "Multi-link inputs with several errors at the same offset and > 20 errors, each run K times (12 quick / 60 thorough) under distinct perturbation schedules incl. stalled validators / stalled collector; stderr error order, stdout, statistics bytes and exit status must equal the unperturbed run. A case only counts if >= 3 distinct pre-sort arrival orders were observed.",
+      "Multi-link inputs with several errors at the same offset and > 20 errors, each run K times (12 quick / 80 thorough) under distinct perturbation schedules incl. stalled validators / stalled collector; stderr error order, stdout, statistics bytes and exit status must equal the unperturbed run. A case only counts if >= 3 distinct pre-sort arrival orders were observed.",
       "Perturbation only at the existing hand-off points; explores many, not all, interleavings."),
     C("C06", "exploration", CLI + " + in-process single-threaded pass: per-link normalised error lists compared across layouts",
       "Multi-link streams (link ids 0..255 incl. ids aliasing modulo 16/32/128; in stave mode several FEE ids behind one link id) with 0..10 mutations: per-link error lists, normalised to (packet index in link, delta), compared between the stream as generated, two re-merges, the extracted single-link file, --filter-link/-fee/-its-stave runs and one sequential pass through a real LinkValidator.",
